@@ -68,6 +68,9 @@ type Options struct {
 	Replay   bool
 	Verbose  bool
 	Params   map[string]string
+	// IsKnown tells an engine whether a violation is listed in known_findings.json, so that
+	// it can record it and keep exploring past it (the worker still counts it as known).
+	IsKnown func(v Violation) bool
 }
 
 func (o Options) Int(name string, def int) int {
@@ -266,6 +269,7 @@ func Main(t *testing.T, e Engine) {
 		replayDir = "/verif/replays"
 	}
 	known := loadKnown(os.Getenv("VERIF_KNOWN"))
+	opt.IsKnown = func(v Violation) bool { return isKnown(known, v) }
 	wantHashes := os.Getenv("VERIF_TRACE_HASHES") != ""
 	shrinkBudget := time.Duration(envInt("VERIF_SHRINK_S", 60)) * time.Second
 
@@ -434,6 +438,8 @@ func replayMain(t *testing.T, e Engine, opt Options, path string) {
 	if err := json.Unmarshal(b, &rf); err != nil {
 		t.Fatalf("REPLAY-ERROR cannot parse %s: %v", path, err)
 	}
+	knownR := loadKnown(os.Getenv("VERIF_KNOWN"))
+	opt.IsKnown = func(v Violation) bool { return isKnown(knownR, v) }
 	opt.Replay = true
 	opt.Tier = rf.Tier
 	opt.Mode = rf.Mode
